@@ -197,9 +197,10 @@ def fastAlone : Desc → Val → Res
   -- validate_trait_type, ctraits.c:3258-3274
   | .typeChk an ty, v =>
     if (an && v.isNone) || Val.isInst ty v then .ok v else .traitError
-  -- validate_trait_instance, 3280-3296
+  -- validate_trait_instance: None is valid exactly when there is a None slot, it is never
+  -- tested against the class (0abe830)
   | .instChk an ty, v =>
-    if (an && v.isNone) || Val.isInst ty v then .ok v else .traitError
+    if (an && v.isNone) || (!v.isNone && Val.isInst ty v) then .ok v else .traitError
   -- validate_trait_self_type, 3303-3315
   | .selfType an, v =>
     if (an && v.isNone) || Val.isInst (.user E.selfCls) v then .ok v else .traitError
@@ -314,9 +315,9 @@ def complexCase : Desc → Val → Step
   -- case 0, 4004-4013
   | .typeChk an ty, v =>
     if (an && v.isNone) || Val.isInst ty v then .accept v else .next
-  -- case 1, 4014-4023
+  -- case 1 (same repair, 0abe830)
   | .instChk an ty, v =>
-    if (an && v.isNone) || Val.isInst ty v then .accept v else .next
+    if (an && v.isNone) || (!v.isNone && Val.isInst ty v) then .accept v else .next
   -- case 2, 4024-4029
   | .selfType an, v =>
     if (an && v.isNone) || Val.isInst (.user E.selfCls) v then .accept v else .next
